@@ -1188,6 +1188,7 @@ class TorProcessProtocol(protocol.ProcessProtocol):
             self.connection_creator = None
         # use SingleObserver
         self._connected_listeners = []  # list of Deferred (None when we're connected)
+        self._connected_failure = None  # the Failure we notified with, if launching failed
 
         self.attempted_connect = False
         self.to_delete = []
@@ -1211,6 +1212,9 @@ class TorProcessProtocol(protocol.ProcessProtocol):
 
     def when_connected(self):
         if self._connected_listeners is None:
+            # already notified; late callers get the same answer
+            if self._connected_failure is not None:
+                return fail(self._connected_failure)
             return succeed(self)
         d = Deferred()
         self._connected_listeners.append(d)
@@ -1225,6 +1229,8 @@ class TorProcessProtocol(protocol.ProcessProtocol):
         """
         if self._connected_listeners is None:
             return
+        if isinstance(arg, Failure):
+            self._connected_failure = arg
         for d in self._connected_listeners:
             # Twisted will turn this into an errback if "arg" is a
             # Failure
